@@ -267,13 +267,18 @@ func MiscText(r *gen.RNG, letters []rune) []rune {
 	var out []rune
 	pick := func(xs []rune) { out = append(out, gen.Pick(r, xs)) }
 	switch r.Intn(7) {
-	case 0: // fraction, possibly one-sided
+	case 0: // fraction, possibly one-sided, chained ("1⁄2⁄3") or with a doubled slash
 		for k := r.Intn(4); k > 0; k-- {
 			out = append(out, rune('0'+r.Intn(10)))
 		}
-		out = append(out, 0x2044)
-		for k := r.Intn(4); k > 0; k-- {
-			out = append(out, rune('0'+r.Intn(10)))
+		for links := 1 + r.Intn(3)*r.Intn(2); links > 0; links-- {
+			out = append(out, 0x2044)
+			if r.Chance(1, 8) {
+				out = append(out, 0x2044)
+			}
+			for k := r.Intn(4); k > 0; k-- {
+				out = append(out, rune('0'+r.Intn(10)))
+			}
 		}
 		if r.Bool() {
 			pick(letters)
